@@ -276,6 +276,8 @@ def _alphabet(kind):
     sym.append({"act": "deselect_nearest", "x": 2.0, "y": 1.0, "shift": True})
     # just right of the midpoint between the first two selected entries (nearer the upper one)
     sym.append({"act": "deselect_nearest", "x": 14.0, "y": 2.0, "shift": True, "mid": [0, 0.04]})
+    # just left of it (nearer the lower one)
+    sym.append({"act": "deselect_nearest", "x": 14.0, "y": 2.0, "shift": True, "mid": [0, -0.04]})
     sym.append({"act": "select", "x": sel[0][0], "y": sel[0][1], "shift": False})
     sym.append({"act": "deselect_one", "x": 5.0, "y": 1.0, "shift": False})
     sym.append({"act": "deselect_nearest", "x": 2.0, "y": 1.0, "shift": False})
@@ -284,7 +286,7 @@ def _alphabet(kind):
 
 def enum_dialog(kind):
     def f(tier):
-        L = 3 if tier == "quick" else (5 if kind == "SSI" else 4)
+        L = 3 if tier == "quick" else 4
         sym = _alphabet(kind)
         cases = []
         for n in range(1, L + 1):
@@ -345,9 +347,9 @@ def _subs():
     out = []
     for kind, nm in (("SSI", "ssi"), ("pLSCF", "plscf"), ("FDD", "fdd")):
         out.append(Sub(f"enumerate_{nm}", judge_dialog, enum=enum_dialog(kind), shards_quick=16, shards_thorough=16,
-                       rule=f"{kind} dialog: every action sequence up to length 3 (quick) / 4 (thorough; 5 for the SSI dialog) over 4 picks, deselect-one, 2 deselect-nearest and 3 un-modified actions, handlers called directly"))
+                       rule=f"{kind} dialog: every action sequence up to length 3 (quick) / 4 (thorough) over 4 picks, deselect-one, 3 deselect-nearest (one aimed either side of the midpoint of two selected entries) and 3 un-modified actions, handlers called directly"))
     for kind, nm in (("SSI", "ssi"), ("pLSCF", "plscf"), ("FDD", "fdd")):
-        out.append(Sub(f"machine_{nm}", judge_dialog, machine_case(kind), quick=32, thorough=800,
+        out.append(Sub(f"machine_{nm}", judge_dialog, machine_case(kind), quick=32, thorough=3000,
                        rule=f"{kind} dialog: generated tables and up to 6 actions at arbitrary coordinates, dispatched as genuine matplotlib Mouse/Key events"))
     return out
 
